@@ -59,43 +59,34 @@ def run(ctx, monitors=MONITORS):
     q = ctx.quick
     scripts = []
 
-    # ---- 1. design level, exhaustive (complete state graphs)
-    exh = ["bolt", "boltmut", "trimmed", "trimmedmut", "memdb"] if q else \
-          ["bolt_big", "boltmut_big", "trimmed_big", "trimmedmut_big", "memdb_big", "memdb_k2"]
-    for c in exh:
-        ctx.model_check(MOD, "MC_StoreBackend_%s.cfg" % c, workers=W, timeout=400 if q else 1500,
-                        coverage=(not q and c in ("bolt_big", "memdb_k2")))
-    # strict configs: every monitor at every call of the transcribed code.  Expected to fail for the
-    # trimmed kinds (F7) and the ring (F15); a failure is a MODEL counterexample, it only becomes a
-    # verdict if the replay below shows it on the real code.
-    ncex = 0
-    exhaustive_so_far = ctx.exhaustive      # the strict runs stop at their first counterexample by design
-    for c in ("trimmed_strict", "trimmedc_strict", "memdb_strict"):
-        r = ctx.model_check(MOD, "MC_StoreBackend_%s.cfg" % c, expect_ok=False, workers=1, timeout=300)
-        if r.timeout or (r.error and not r.violated):
-            ctx.inconclusive.append("TLC failed on strict config %s: %s" % (c, r.error or "timeout"))
-        for tag, obj in core.parse_vp_prints(r.prints):
-            if tag == "CEX" and obj:
-                s = _script("tlc-cex-%s" % c.replace("_strict", ""), obj.get("script"))
-                if s:
+    # ---- 1. design level, exhaustive (complete state graphs), per back-end family
+    #  *_all : the four back-ends, Put/Del only outside bolt cursors; also prints a seeded sample of the
+    #          state cover (COV) and the path to the first call of every class of monitor failure (CEX)
+    #  *_mut : the bolt kinds with Put/Del while a cursor (read transaction) is open
+    #  ring2 : the ring with capacity 2
+    # Act_ModuloNamed (in every config) says: outside the NAMED deviations (F7 trimmed Seek of an absent
+    # round, F15 ring Next after the slice moved) the transcribed code satisfies every monitor.  The CEX
+    # classes are model counterexamples: they become verdicts only through the replay below.
+    ncex, ncov, cov, classes = 0, 0, [], set()
+    for c in (["all", "mut"] if q else ["all_big", "mut_big", "ring2"]):
+        first = c.startswith("all")
+        r = ctx.model_check(MOD, "MC_StoreBackend_%s.cfg" % c, workers=(1 if (first and q) else W), seed=ctx.seed,
+                            timeout=600 if q else 2400, coverage=(not q and c == "ring2"))
+        for i, (tag, obj) in enumerate(core.parse_vp_prints(r.prints)):
+            if tag == "COV" and obj:
+                s = _script("tlc-cover-%d" % i, obj, fast=True)
+                if s and s["steps"]:
+                    cov.append(s)
+                    ncov += 1
+            elif tag == "CEX" and obj:
+                s = _script("tlc-cex-%s-%d" % (c, ncex), obj.get("script"))
+                key = (s and s["backend"], obj.get("shape"), tuple(sorted(obj.get("failed", []))))
+                if s and key not in classes:
+                    classes.add(key)
                     scripts.append(s)
                     ncex += 1
-                    ctx.notes.append("model counterexample on %s: monitors %s break at a call of shape '%s' after %d calls"
-                                     % (c, ",".join(sorted(obj.get("failed", []))), obj.get("shape"), len(s["steps"])))
-        if not r.violated:
-            ctx.notes.append("strict config %s: the transcribed code satisfies every monitor" % c)
-
-    ctx.exhaustive = exhaustive_so_far
-    # ---- 2a. state cover of a complete graph (BFS path to every distinct state)
-    r = ctx.model_check(MOD, "MC_StoreBackend_cover%s.cfg" % ("" if q else "_big"), workers=1,
-                        timeout=300 if q else 1200)
-    ncov, cov = 0, []
-    for i, (tag, obj) in enumerate(core.parse_vp_prints(r.prints)):
-        if tag == "COV" and obj:
-            s = _script("tlc-cover-%d" % i, obj, fast=True)
-            if s and s["steps"]:
-                cov.append(s)
-                ncov += 1
+                    ctx.notes.append("model counterexample (%s, %s): monitors %s break at a call of shape '%s' after %d calls"
+                                     % (c, s["backend"], ",".join(key[2]), key[1], len(s["steps"])))
     scripts += _chain(cov, 60)
     # ---- 2b. random walks of the design model
     nw, walks = 0, []
